@@ -237,22 +237,40 @@ def zero_trip_lines(prog, mod, args, dec):
     return zero
 
 
+_OPEN_CLASSES = None
+
+
+def open_classes():
+    """Classes of the OPEN listed C01 findings (a `status: fixed` entry suppresses nothing, so its class must not
+    shadow an open class that also matches the case)."""
+    global _OPEN_CLASSES
+    if _OPEN_CLASSES is None:
+        import common
+        _OPEN_CLASSES = set(f.get('class') for f in common.load_known_findings()
+                            if f.get('property') == 'C01' and f.get('status', 'open') != 'fixed')
+    return _OPEN_CLASSES
+
+
 def classify(prog, mod, args, dec, static, orig_outcome=None, raised_at_del=False):
-    """Finding class of a failing case, or None (= new violation)."""
-    if 'for_target_rebound_elsewhere_and_read_after_loop' in static:
-        return 'for_target_rebound_elsewhere_and_read_after_loop'
-    if 'local_first_bound_by_closure_call' in static:
-        return 'local_first_bound_by_closure_call'
-    if 'nested_fn_param_leaks_into_enclosing_bound' in static:
-        return 'nested_fn_param_leaks_into_enclosing_bound'
+    """Finding class of a failing case, or None (= new violation).  Of all matching classes the first OPEN one is
+    returned; when only classes of repaired findings match, the first of those (it is reported as a violation)."""
+    matches = []
+    for k in ('for_target_rebound_elsewhere_and_read_after_loop', 'local_first_bound_by_closure_call',
+              'nested_fn_param_leaks_into_enclosing_bound'):
+        if k in static:
+            matches.append(k)
     if 'del_of_unbound_name_does_not_raise' in static and orig_outcome[:2] == ('exc', 'NameError') and raised_at_del:
-        return 'del_of_unbound_name_does_not_raise'
+        matches.append('del_of_unbound_name_does_not_raise')
     for k in ('global_assigned_in_converted_block', 'nonlocal_or_global_declared_in_nested_block', 'read_in_class_body', 'namedexpr_in_call_argument', 'call_in_return_annotation_of_nested_def', 'lambda_in_decorator_of_nested_def',
               'docstring_only_function_body',
               'raise_in_finally_over_jump', 'except_handler_binds_name', 'try_else_block_starts_with_if', 'chained_comparison_effectful_middle_operand'):
         if k in static:
+            matches.append(k)
+    opn = open_classes()
+    for k in matches:
+        if k in opn:
             return k
-    return None
+    return matches[0] if matches else None
 
 
 # ------------------------------------------------------------------------------------------------
